@@ -81,6 +81,10 @@ FLOORS = {"quick": {"evaluations": 2300, "distinct_nontrivial": 1700,
                                     "norechunk_valueerror": 2300, "asymmetric_depth": 2300, "trim_false": 3000,
                                     "lazy_meta_checked": 36000},
                        "max_skipped_fraction": 0.1}}
+# sibling facet (vf/mon/siblings.py): ~45 % of the smallest count of the five quick seeds on the unchanged tree; thorough =
+# quick floor x (thorough / quick stream size) x 0.6.  A run in which the facet never executed is INCONCLUSIVE.
+FLOORS["quick"]["counters"].update({"siblings_built": 1900, "siblings_computed_together": 260, "siblings_with_different_values": 205})
+FLOORS["thorough"]["counters"].update({"siblings_built": 21000, "siblings_computed_together": 3000, "siblings_with_different_values": 2300})
 EXHAUSTIVE_SPACE = ("all 32 chunkings of shape (6,) x depth {1,2} x boundary {none, periodic, reflect, nearest, constant} "
                     "for trim_internal(overlap(x)) and for map_overlap with the 3-point/5-point full-radius stencil; "
                     "all 16 chunkings of shape (5,) x window 1..5 for sliding_window_view")
